@@ -164,7 +164,32 @@ func RecomputeStat(vals []*state.Validator, from *state.ValidatorsStat) *state.V
 // CheckLinks evaluates the C08 invariants on a StateDB over the fixture
 // delegators `dlgs` and returns human-readable discrepancies (empty = holds).
 func CheckLinks(st *state.StateDB, dlgs []common.Address) (bad []string) {
-	vals := st.GetValidatorsForUpdate()
+	return CheckLinksOver(st, ValAddr, dlgs)
+}
+
+// CheckLinksOver: `cands` is the universe of addresses that may hold a validator.
+// The records are enumerated independently of the implementation's index by
+// direct lookup over that universe; the implementation's own enumeration
+// (GetValidatorsForUpdate) has to agree with it.
+func CheckLinksOver(st *state.StateDB, cands []common.Address, dlgs []common.Address) (bad []string) {
+	var vals []*state.Validator
+	for _, a := range cands {
+		if v := st.GetValidatorByMainAddr(a); v != nil {
+			vals = append(vals, v)
+		}
+	}
+	listed := st.GetValidatorsForUpdate()
+	ls := func(vs []*state.Validator) string {
+		var as []string
+		for _, v := range vs {
+			as = append(as, fmt.Sprintf("%x", v.MainAddress().Bytes()[:3]))
+		}
+		sort.Strings(as)
+		return strings.Join(as, ",")
+	}
+	if a, b := ls(vals), ls(listed); a != b {
+		bad = append(bad, fmt.Sprintf("enumeration-mismatch: existing validators [%s], GetValidatorsForUpdate lists [%s]", a, b))
+	}
 	stat, err := st.GetValidatorsStat()
 	if err != nil {
 		return []string{"stat-load-error: " + err.Error()}
@@ -243,4 +268,27 @@ func CheckLinks(st *state.StateDB, dlgs []common.Address) (bad []string) {
 		}
 	}
 	return bad
+}
+
+// ObserveStaking renders the pending staking records / relationships of the fixture.
+func ObserveStaking(st *state.StateDB) string {
+	var b strings.Builder
+	rec := func(name string, d, v common.Address) {
+		r := st.GetStakingRecord(d, v)
+		if r == nil {
+			fmt.Fprintf(&b, " %s=nil", name)
+			return
+		}
+		var hs []string
+		for _, h := range r.TxHashes {
+			hs = append(hs, fmt.Sprintf("%x", h[28:]))
+		}
+		fmt.Fprintf(&b, " %s={%v %v}", name, r.FinalValue, hs)
+	}
+	rec("rec(-,V1)", common.Address{}, ValAddr[1])
+	rec("rec(D,V0)", Acc[2], ValAddr[0])
+	fmt.Fprintf(&b, " rel(D,V0)=%v rel(D,V2)=%v dcnt=%d vcnt=%d/%d pv1=%v", st.PendingRelationshipExist(Acc[2], ValAddr[0]),
+		st.PendingRelationshipExist(Acc[2], ValAddr[2]), st.DelegatorPendingCount(Acc[2]), st.ValidatorPendingCount(ValAddr[0]),
+		st.ValidatorPendingCount(ValAddr[2]), st.PendingValidatorExist(ValAddr[1]))
+	return b.String()
 }
